@@ -13,15 +13,51 @@ CAND = sys.argv[1] if len(sys.argv) > 1 else "/tmp/cand"
 RES = sys.argv[2] if len(sys.argv) > 2 else "/tmp/seedwt/results"
 
 
+# what was added to a check because of a seeded change (the properties are unchanged).  OBSERVED_MISS: the check ran against the
+# change and exited 0 (or 3) before the addition; for the others the addition was made on reading the change's description,
+# before the first run against it.
+OBSERVED_MISS = {"C03_b", "C04_a", "C05_a", "C07_b", "C09_a", "C09_b", "C11_a", "C11_b", "C12_b", "C14_a", "C16_b", "C18_a"}
+STRENGTHENED = {
+    "C03_b": "C03 quick tier gained a triclinic configuration; the np.linalg.solve facade was missing (harness error before)",
+    "C04_a": "C04: two-frame configurations for every species count (ternary and up were single-frame)",
+    "C05_a": "C05: trajectories whose cell changes between frames",
+    "C07_b": "SAngle + k*pi was not modelled (harness error in C08's delegated branch); now decided by C08",
+    "C09_a": "C09: per-frame neighbour topologies, two-frame s_ij configuration with a dropping coordination number",
+    "C09_b": "as C07_b (same site): C08 delegated branch",
+    "C11_a": "C11: configuration with a mixed periodicity mask",
+    "C11_b": "C11: masses map inserted in descending type order; np.fromiter facade",
+    "C12_b": "C12: sequences of queries on one shared PairInteractions object",
+    "C13_a": "C13 quick tier gained triclinic conditional g(r) configurations",
+    "C13_b": "C13: complex scalar field for conditional S(q)",
+    "C14_a": "C14: documented decimal time steps (exact rational in the symbolic run, double in the replay) - float-level effect, "
+             "caught by the replay of the path model, not by the solver",
+    "C16_b": "C16: second frame with a shifted box origin in the blurring harness",
+    "C17_a": "C17: two-frame pair-entropy configuration with per-id types exchanged between frames",
+    "C17_b": "C17: periodic triclinic tetrahedral-order configuration (with solver-checked rint pinning)",
+    "C18_a": "C18: VolumeMatrix with unwrapped coordinates outside the primary cell",
+    "C18_b": "C18: integer-valued float64 wave-vector array handed to conditional_sq twice",
+    "C19_a": "C19: type maps whose values are again keys, and a pure swap",
+    "C19_b": "C19: frames sharing one int64 typeid array; converting the same sequence twice",
+}
+
+
 def needs(notes):
-    """first 'needs / trigger / manifest' paragraph of the author's notes, shortened"""
+    """the 'what it needs to manifest' part of the author's notes: the section under a heading that says so, else the lines
+    that mention it"""
     txt = open(notes).read() if os.path.exists(notes) else ""
-    keep = []
-    for line in txt.splitlines():
+    lines = txt.splitlines()
+    keys = ("manifest", "trigger", "needs", "needed", "requires")
+    out, take = [], False
+    for line in lines:
         l = line.strip()
-        if any(k in l.lower() for k in ("manifest", "trigger", "needs", "only when", "only with", "requires")):
-            keep.append(l.lstrip("-* "))
-    return " ".join(keep)[:700]
+        if l.startswith("#"):
+            take = any(k in l.lower() for k in keys)
+            continue
+        if take and l:
+            out.append(l.lstrip("-* "))
+    if not out:
+        out = [l.strip().lstrip("-* ") for l in lines if any(k in l.lower() for k in keys)]
+    return " ".join(out)[:900]
 
 
 def main():
@@ -36,7 +72,7 @@ def main():
         ok = r.get("patch_applies") and r.get("demo_ok") and r.get("tests_unchanged")
         short = os.path.basename(os.path.normpath(cand))
         if not ok:
-            rows.append((short, prop, "not kept", f"patch={r.get('patch_applies')} demo={r.get('demo_ok')} tests={r.get('tests_unchanged')}", ""))
+            rows.append((short, prop, "not kept", f"patch={r.get('patch_applies')} demo={r.get('demo_ok')} tests={r.get('tests_unchanged')}", "", ""))
             continue
         dst = os.path.join(ROOT, "seeded", short)
         os.makedirs(dst, exist_ok=True)
@@ -59,11 +95,14 @@ def main():
                 repo_head=r.get("head"), patch_applies=True, demo_exit_clean=r.get("demo_clean_rc"), demo_exit_patched=r.get("demo_patched_rc"),
                 demo_output_patched=(r.get("demo_patched_tail") or "")[-400:],
                 tests=r.get("tests")),
-            checks_run=checks, detected_by=caught, detected=bool(caught))
+            checks_run=checks, detected_by=caught, detected=bool(caught),
+            strengthening=STRENGTHENED.get(short, "none needed: caught by the check as first built"),
+            missed_before_strengthening=(short in OBSERVED_MISS))
         json.dump(meta, open(os.path.join(dst, "meta.json"), "w"), indent=1)
-        rows.append((short, prop, "kept", ", ".join(caught) if caught else "MISSED", (checks.get(caught[0], {}) if caught else {}).get("first_violation", "")[:110]))
-    print("| change | property | kept | caught by | first violated obligation |")
-    print("|---|---|---|---|---|")
+        rows.append((short, prop, "kept", ", ".join(caught) if caught else "MISSED", ("after a miss" if short in OBSERVED_MISS else "before first run") if short in STRENGTHENED else "",
+                     (checks.get(caught[0], {}) if caught else {}).get("first_violation", "")[:110]))
+    print("| change | property | kept | caught by | check strengthened first | first violated obligation |")
+    print("|---|---|---|---|---|---|")
     for r in rows:
         print("| " + " | ".join(str(x) for x in r) + " |")
 
